@@ -468,7 +468,11 @@ def hir_mir_option_reads(ctx):
 
 def rules(ctx):
     from . import c12, c10
-    out = [r14_1, r14_2, r14_3, r14_4, r14_5, c12.r12_1]
+    from ..engine import only
+    from . import c01
+    from . import c09
+    out = [r14_1, r14_2, r14_3, r14_4, r14_5, c12.r12_1, c09.r09_5,
+           only(c01.r01_1, lambda k: k.startswith("component predicate") or "custom" in k.lower(), "customElementPatterns is matched against the whole tag name of plain / namespaced tags only")]
     if ctx.tier == "thorough":
         out.append(hir_mir_option_reads)
     return out
